@@ -151,8 +151,6 @@ def dump(in_db, f, **options):
                 else:
                     frame.add_attribute("VFrameFormat", "StandardCAN")
 
-    db.enum_attribs_to_keys()
-
     # free signals are in special frame in dbc...
     if len(db.signals) > 0:
         free_signals_dummy_frame = canmatrix.Frame("VECTOR__INDEPENDENT_SIG_MSG")
@@ -161,6 +159,8 @@ def dump(in_db, f, **options):
         free_signals_dummy_frame.arbitration_id.id = 0x40000000
         free_signals_dummy_frame.signals = db.signals
         db.add_frame(free_signals_dummy_frame)
+
+    db.enum_attribs_to_keys()
 
     # shorten long environment variable names
     for env_var_name in copy.deepcopy(db.env_vars):
@@ -520,6 +520,13 @@ def load(f, **options):  # type: (typing.IO, **typing.Any) -> canmatrix.CanMatri
     def add_frame_by_id(new_frame):  # type: (canmatrix.Frame) -> None
         frames_by_id[hash_arbitration_id(new_frame.arbitration_id)] = new_frame
 
+    def arbitration_id_from_compound(compound):  # type: (int) -> canmatrix.ArbitrationId
+        arbitration_id = canmatrix.ArbitrationId.from_compound_integer(compound)
+        if compound & 0x7FFFFFFF == 0x40000000:
+            # statements about the signals without frame refer to the dummy frame's special id
+            arbitration_id.id = 0x40000000
+        return arbitration_id
+
     for line in f:
         i = i + 1
         l = line.strip()
@@ -667,7 +674,7 @@ def load(f, **options):  # type: (typing.IO, **typing.Any) -> canmatrix.CanMatri
             elif decoded.startswith("BO_TX_BU_ "):
                 regexp = re.compile(r"^BO_TX_BU_ ([0-9]+) *: *(.+) *;")
                 temp = regexp.match(decoded)
-                frame = get_frame_by_id(canmatrix.ArbitrationId.from_compound_integer(int(temp.group(1))))
+                frame = get_frame_by_id(arbitration_id_from_compound(int(temp.group(1))))
                 for ecu_name in temp.group(2).split(','):
                     frame.add_transmitter(ecu_name)
             elif decoded.startswith("CM_ SG_ "):
@@ -677,7 +684,7 @@ def load(f, **options):  # type: (typing.IO, **typing.Any) -> canmatrix.CanMatri
                 temp = regexp.match(decoded)
                 temp_raw = regexp_raw.match(l)
                 if temp:
-                    frame = get_frame_by_id(canmatrix.ArbitrationId.from_compound_integer(int(temp.group(1))))
+                    frame = get_frame_by_id(arbitration_id_from_compound(int(temp.group(1))))
                     signal = frame.signal_by_name(temp.group(2))
                     if signal:
                         try:
@@ -694,7 +701,7 @@ def load(f, **options):  # type: (typing.IO, **typing.Any) -> canmatrix.CanMatri
                     temp = regexp.match(decoded)
                     temp_raw = regexp_raw.match(l)
                     if temp:
-                        frame = get_frame_by_id(canmatrix.ArbitrationId.from_compound_integer(int(temp.group(1))))
+                        frame = get_frame_by_id(arbitration_id_from_compound(int(temp.group(1))))
                         signal = frame.signal_by_name(temp.group(2))
                         try:
                             comment = temp_raw.group(3).decode(
@@ -712,7 +719,7 @@ def load(f, **options):  # type: (typing.IO, **typing.Any) -> canmatrix.CanMatri
                 temp = regexp.match(decoded)
                 temp_raw = regexp_raw.match(l)
                 if temp:
-                    frame = get_frame_by_id(canmatrix.ArbitrationId.from_compound_integer(int(temp.group(1))))
+                    frame = get_frame_by_id(arbitration_id_from_compound(int(temp.group(1))))
                     if frame:
                         try:
                             frame.add_comment(temp_raw.group(2).decode(
@@ -728,7 +735,7 @@ def load(f, **options):  # type: (typing.IO, **typing.Any) -> canmatrix.CanMatri
                     temp = regexp.match(decoded)
                     temp_raw = regexp_raw.match(l)
                     if temp:
-                        frame = get_frame_by_id(canmatrix.ArbitrationId.from_compound_integer(int(temp.group(1))))
+                        frame = get_frame_by_id(arbitration_id_from_compound(int(temp.group(1))))
                         try:
                             comment = temp_raw.group(2).decode(
                                 dbc_comment_encoding).replace('\\"', '"')
@@ -789,7 +796,7 @@ def load(f, **options):  # type: (typing.IO, **typing.Any) -> canmatrix.CanMatri
 
                     if frame_id:  # value for Frame
                         try:
-                            frame = get_frame_by_id(canmatrix.ArbitrationId.from_compound_integer(int(frame_id)))
+                            frame = get_frame_by_id(arbitration_id_from_compound(int(frame_id)))
                             sg = frame.signal_by_name(signal_name)
                             for i in range(math.floor(len(temp_list) / 2)):
                                 val = temp_list[i * 2 + 1]
@@ -863,14 +870,14 @@ def load(f, **options):  # type: (typing.IO, **typing.Any) -> canmatrix.CanMatri
                     regexp = re.compile(r"^BA_ +\"(.+?)\" +BO_ +(\d+) +(.+) *; *")
                     temp = regexp.match(decoded)
                     check_numeric_attribute(db.frame_defines, temp.group(1), temp.group(3))
-                    get_frame_by_id(canmatrix.ArbitrationId.from_compound_integer(int(temp.group(2)))).add_attribute(
+                    get_frame_by_id(arbitration_id_from_compound(int(temp.group(2)))).add_attribute(
                         temp.group(1), temp.group(3))
                 elif tempba.group(1).strip().startswith("SG_ "):
                     regexp = re.compile(r"^BA_ +\"(.+?)\" +SG_ +(\d+) +(\S+) +(.+) *; *")
                     temp = regexp.match(decoded)
                     if temp is not None:
                         check_numeric_attribute(db.signal_defines, temp.group(1), temp.group(4))
-                        get_frame_by_id(canmatrix.ArbitrationId.from_compound_integer(int(temp.group(2)))).signal_by_name(
+                        get_frame_by_id(arbitration_id_from_compound(int(temp.group(2)))).signal_by_name(
                             temp.group(3)).add_attribute(temp.group(1), temp.group(4))
                 elif tempba.group(1).strip().startswith("EV_ "):
                     regexp = re.compile(r"^BA_ +\"(.+?)\" +EV_ +(\S+) +(.*) *; *")
@@ -896,7 +903,7 @@ def load(f, **options):  # type: (typing.IO, **typing.Any) -> canmatrix.CanMatri
             elif decoded.startswith("SIG_GROUP_ "):
                 regexp = re.compile(r"^SIG_GROUP_ +(\S+) +(\S+) +(\S+) +\:(.*) *; *")
                 temp = regexp.match(decoded)
-                frame = get_frame_by_id(canmatrix.ArbitrationId.from_compound_integer(int(temp.group(1))))
+                frame = get_frame_by_id(arbitration_id_from_compound(int(temp.group(1))))
                 if frame is not None:
                     signal_array = temp.group(4).split(' ')
                     frame.add_signal_group(temp.group(2), temp.group(3), signal_array)  # todo wrong annotation in canmatrix? Id is a string?
@@ -904,7 +911,7 @@ def load(f, **options):  # type: (typing.IO, **typing.Any) -> canmatrix.CanMatri
             elif decoded.startswith("SIG_VALTYPE_ "):
                 regexp = re.compile(r"^SIG_VALTYPE_ +(\S+) +(\S+)\s*\:(.*) *; *")
                 temp = regexp.match(decoded)
-                frame = get_frame_by_id(canmatrix.ArbitrationId.from_compound_integer(int(temp.group(1))))
+                frame = get_frame_by_id(arbitration_id_from_compound(int(temp.group(1))))
                 if frame:
                     signal = frame.signal_by_name(temp.group(2))
                     signal.is_float = True
@@ -928,7 +935,7 @@ def load(f, **options):  # type: (typing.IO, **typing.Any) -> canmatrix.CanMatri
                     signal_name = temp.group(2)
                     muxer_for_signal = temp.group(3)
                     mux_val_groups = temp.group(4).split(',')
-                    frame = get_frame_by_id(canmatrix.ArbitrationId.from_compound_integer(int(frame_id)))
+                    frame = get_frame_by_id(arbitration_id_from_compound(int(frame_id)))
                     if frame is not None:
                         signal = frame.signal_by_name(signal_name)
                         # convert all ranges first: a malformed line must not leave a partial effect
